@@ -206,7 +206,7 @@ func (w *World) CheckObject(fm *FileModel, s *Spec, structName string, path stri
 	if S == nil {
 		// locate by the first property's tag
 		for _, p := range s.Props {
-			if st, _ := fm.FindField(p.Name, w.tagKey()); st != nil {
+			if st, _ := fm.FindFieldText(p.Text(), w.tagKey()); st != nil {
 				S = st
 				break
 			}
@@ -221,7 +221,7 @@ func (w *World) CheckObject(fm *FileModel, s *Spec, structName string, path stri
 	// required
 	out = append(out, w.checkRequired(fm, s, S, path)...)
 	for _, p := range s.Props {
-		F := S.FieldByTag(AtomText(p.Name), w.tagKey())
+		F := S.FieldByTag(p.Text(), w.tagKey())
 		ppath := path + "." + p.Label
 		if F == nil {
 			out = append(out, Issue{Rule: "A-TAG", Construct: "property without a field bound to its name", Msg: ppath + ": no field of " + S.Name + " carries the property's exact name in its " + w.tagKey() + " tag"})
@@ -237,7 +237,7 @@ func (w *World) CheckObject(fm *FileModel, s *Spec, structName string, path stri
 
 func (w *World) checkTags(p *Prop, F *Field, path string) []Issue {
 	var out []Issue
-	want := AtomText(p.Name)
+	want := p.Text()
 	optional := !p.Required
 	for _, k := range w.Cfg.Tags {
 		v, ok := F.Tags[k]
@@ -497,7 +497,7 @@ func (w *World) checkRequired(fm *FileModel, s *Spec, S *Struct, path string) []
 	want := map[string]string{}
 	for _, p := range s.Props {
 		if p.Required && p.Spec.Default == "" {
-			want[AtomText(p.Name)] = p.Label
+			want[p.Text()] = p.Label
 		}
 	}
 	if s.ReqNoProp {
@@ -573,7 +573,7 @@ func (w *World) checkDefault(fm *FileModel, p *Prop, S *Struct, F *Field, path s
 			continue
 		}
 		a := as[0]
-		wantKey := "\"" + AtomText(p.Name) + "\""
+		wantKey := "\"" + p.Text() + "\""
 		okGuard := strings.Contains(a.Init, "raw["+wantKey+"]") && strings.Contains(strings.ReplaceAll(a.Guard, " ", ""), "!ok||v==nil")
 		if !okGuard {
 			out = append(out, Issue{Rule: "A-DEF", Construct: "default guard is not 'key absent or null'", Msg: fmt.Sprintf("%s: the default is applied under `%s; %s`, expected a test that the raw key %s is absent or null", path, a.Init, a.Guard, wantKey)})
@@ -789,7 +789,7 @@ func (w *World) anyOfIssues(fm *FileModel, s *Spec, path string) []Issue {
 	// union of properties
 	for i, b := range s.AnyOf {
 		for _, p := range b.Props {
-			if merged.FieldByTag(AtomText(p.Name), w.tagKey()) == nil {
+			if merged.FieldByTag(p.Text(), w.tagKey()) == nil {
 				out = append(out, Issue{Rule: "A-ANYOF", Construct: "merged anyOf type lacks a branch property", Msg: fmt.Sprintf("%s: property %s of branch %d has no field in %s", path, p.Label, i, merged.Name)})
 			}
 		}
